@@ -416,6 +416,7 @@ where
     pub fn invalidate_all(&mut self) {
         self.cache.clear();
         self.deques.clear();
+        self.entry_count = 0;
         self.weighted_size = 0;
     }
 
